@@ -151,3 +151,11 @@ PROP["manifest"]["level_text"] += (
     "the disconnect callback at every point or while the re-dial blocks; traces, return classes of Subscribe, "
     "Close and every Poll, and monitors compared with the model's schedule (runPScenario_reach)."
 )
+
+# ---- a Poll in flight across a SECOND Subscribe of the same BaseClient, then Close (go/vcorr/rc_pxr.go) ----
+PROP["assumptions"] += [
+    "a Poll caller reading from the transport of an EARLIER Subscribe while a later Subscribe installs a new one and "
+    "Close follows (`rc new pxr <k>`) is outside Model/ClientPoll.lean (one installed Impl per Poll caller): the "
+    "after-Close bound for it (at most one further update of the earlier transport's buffered answer reaches the "
+    "application once Close has returned) is judged by the harness monitor on the real BaseClient only, not proved",
+]
